@@ -86,6 +86,11 @@ void check_segment(gr_segment *seg, const Encoded &text, const gr_face *face, co
             }
             if (c4 && steps > n) { violation("C04:child-chain-cycle", strf("child chain of slot %zu does not terminate", i)); c4 = false; }
         }
+        {   // reach probes: how rich are the attachment forests the runs produce?
+            size_t attached = 0, multi = 0, deep = 0; std::vector<int> nchild(n, 0);
+            for (size_t i = 0; i < n; ++i) if (parent[i] >= 0) { ++attached; if (++nchild[size_t(parent[i])] == 2) ++multi; if (parent[size_t(parent[i])] >= 0) ++deep; }
+            if (attached) probe("forest:segments-with-attachments"); if (multi) probe("forest:segments-with-multi-child-parent"); if (deep) probe("forest:segments-with-depth>=2");
+        }
         for (size_t i = 0; c4 && i < n; ++i)
             if (parent[i] >= 0 && occurs[i] != 1) { violation("C04:child-occurrence", strf("slot %zu (parent %d) occurs %d times in its parent's child chain", i, parent[i], occurs[i])); c4 = false; }
         // base chain
